@@ -335,6 +335,22 @@ def oracle_teardown(ctx, sc, prop):
     return True
 
 
+def oracle_quiet(ctx, sc, prop):
+    """At a quiescent state of the REAL loop with drained queues the explicit 'nothing is pending' predicate must
+    hold (on the real objects and, through the driver line, on the model state): this is what ties the hypothesis of
+    C02_quiet_complete to the real loop's notion of 'a loop pass changes nothing'."""
+    t = sc.t
+    if t.died or t.cmux.outbuf or t.smux.outbuf:
+        return True
+    sc.do(('quiet',))
+    ctx.hist('quiet-state-checked')
+    if sc.s.outs and sc.s.outs[-1] != 'quiet=1':
+        report(ctx, sc, '%s:stuck:quiescent-state-not-quiet' % prop, 0, 'quiescence',
+               'buffers empty, nothing to read, every flag propagated', t.show()[:600])
+        return False
+    return True
+
+
 def oracle_no_pending(ctx, sc, prop):
     """C02 no stuck state: at quiescence nothing is buffered for a flow that can still deliver."""
     t = sc.t
